@@ -13,7 +13,7 @@ func isLockInsert(call ssa.CallInstruction) bool {
 	if methodName(call) != "ExecContext" || len(call.Common().Args) < 3 {
 		return false
 	}
-	s, ok := constString(call.Common().Args[2])
+	s, ok := constString(refArgs(call)[2])
 	return ok && strings.Contains(s, "_litestream_lock") && strings.HasPrefix(strings.ToUpper(strings.TrimSpace(s)), "INSERT")
 }
 
